@@ -1,4 +1,4 @@
-import CssVerif.Lemmas.SheetSpecAt
+import CssVerif.Lemmas.SheetSpecPage
 /-!
 # Lemmas for C02: rules (nested), what the parser builds from them, their projection
 -/
@@ -47,7 +47,7 @@ def SRule.WF (O : Oracle) (M : List Cps) (ns : List (Cps × Cps)) (im : Bool) : 
   | .unknown t => UnknownRuleOk M t
   | .media _ g1 mq g2 _ rules => MqOk mq ∧ O.mediaOk (mediaHead g1 mq g2) = true ∧ rules.WF O M ns true
   | .fontface _ _ blk => im = false ∧ blk.WF O
-  | .page _ _ _ _ _ => False
+  | .page _ _ sel _ blk => PageWF O M sel blk
 def SRules.WF (O : Oracle) (M : List Cps) (ns : List (Cps × Cps)) (im : Bool) : SRules → Prop
   | .nil => True
   | .cons r _ rest => r.WF O M ns im ∧ rest.WF O M ns im
@@ -62,37 +62,6 @@ theorem SRules.parsed_cons (O : Oracle) (ns : List (Cps × Cps)) (r : SRule) (w 
   simp [SRules.parsed]
 
 /-! ## rules are balanced -/
-
-theorem bal_cons_flat {t : Tok} {g : List Tok} (ht : t.br = .no) (hg : nest [] g = some []) :
-    nest [] (t :: g) = some [] := by
-  have : nest [] ([t] ++ g) = some [] := bal_append (nest_flat [] [t] (by simpa using ht)) hg
-  simpa using this
-
-theorem bal_braces {inner : List Tok} (h : nest [] inner = some []) :
-    nest [] (lbraceTok :: (inner ++ [rbraceTok])) = some [] := by
-  have hp : push [] lbraceTok = some [.brace] := by simp [push, Tok.br, lbraceTok, charTok]
-  have h1 : nest [.brace] inner = some [.brace] := nest_lift [] [] [.brace] inner h
-  unfold nest
-  simp only [hp]
-  rw [nest_append, h1]
-  simp [nest, rbrace_closes.1]
-
-theorem noEof_braces {inner : List Tok} (h : noEof inner = true) :
-    noEof (lbraceTok :: (inner ++ [rbraceTok])) = true := by
-  have : lbraceTok :: (inner ++ [rbraceTok]) = [lbraceTok] ++ (inner ++ [rbraceTok]) := rfl
-  rw [this, noEof_append, noEof_append, h]
-  decide
-
-/-- `t pre { inner }` is balanced and has no EOF -/
-theorem bal_blockStmt (t : Tok) (pre inner : List Tok) (ht : Flat .default t) (hpre : QB .default pre)
-    (hB : nest [] inner = some []) (hBe : noEof inner = true) :
-    nest [] (t :: (pre ++ lbraceTok :: (inner ++ [rbraceTok]))) = some [] ∧
-      noEof (t :: (pre ++ lbraceTok :: (inner ++ [rbraceTok]))) = true := by
-  constructor
-  · exact bal_cons_flat ht.2.1 (bal_append hpre.2 (bal_braces hB))
-  · have : t :: (pre ++ lbraceTok :: (inner ++ [rbraceTok])) = [t] ++ (pre ++ (lbraceTok :: (inner ++ [rbraceTok]))) := rfl
-    rw [this, noEof_append, noEof_append, hpre.noEof, noEof_braces hBe]
-    simp [noEof, ht.1]
 
 theorem atTok_default_flat (typ : TT) (kw : Mask) (name : String) (h1 : typ ≠ .eof) (h2 : typ ≠ .function)
     (h3 : typ ≠ .string) : Flat .default (atTok typ kw name) := atTok_flat .default typ kw name h1 h2 h3
@@ -130,8 +99,13 @@ theorem SRule.bal (O : Oracle) (M : List Cps) (ns : List (Cps × Cps)) (im : Boo
     have := bal_blockStmt (atTok .fontFaceSym kw "font-face") (Gap.toks g1) blk.toks
       (atTok_default_flat _ _ _ (by decide) (by decide) (by decide)) ((gapL_toks g1).qb _) b1 b2
     simpa [SRule.toks] using this
-  | .page _ _ _ _ _, h => by
-    exact absurd h (by simp [SRule.WF])
+  | .page kw g0 sel g1 blk, h => by
+    have h : PageWF O M sel blk := h
+    obtain ⟨b1, b2⟩ := SPageBlock.bal O M sel blk h
+    have := bal_blockStmt (atTok .pageSym kw "page") (pageHead g0 sel g1) blk.toks
+      (atTok_default_flat _ _ _ (by decide) (by decide) (by decide))
+      (QB.flat (pageHead_flat g0 sel g1 h.selWF .default (Or.inl rfl))) b1 b2
+    simpa [SRule.toks, pageHead] using this
 theorem SRules.bal (O : Oracle) (M : List Cps) (ns : List (Cps × Cps)) (im : Bool) :
     ∀ (rs : SRules), rs.WF O M ns im → nest [] rs.toks = some [] ∧ noEof rs.toks = true
   | .nil, _ => ⟨rfl, rfl⟩
@@ -183,7 +157,7 @@ theorem atMedia_facts (kw : Mask) :
 
 mutual
 /-- one rule inside `@media`: the block parser consumes exactly its tokens and appends the rule -/
-theorem mediaLoop_rule (O : Oracle) (M : List Cps) (ns : List (Cps × Cps)) :
+theorem mediaLoop_rule (O : Oracle) (M : List Cps) (hO : AtFaithful O) (ns : List (Cps × Cps)) :
     ∀ (r : SRule), r.WF O M ns true → ∀ (f : Nat) (acc : List Rule) (x : List Tok), r.toks.length < f →
       parseLoop (mediaStep O ns (fun l => mediaRule O ns f l)) acc (r.toks ++ x) =
         parseLoop (mediaStep O ns (fun l => mediaRule O ns f l)) (acc ++ [r.parsed O ns]) x
@@ -227,7 +201,7 @@ theorem mediaLoop_rule (O : Oracle) (M : List Cps) (ns : List (Cps × Cps)) :
         rw [e] at hf
         simp only [List.length_cons, List.length_append] at hf
         omega
-      have hbody := mediaLoop_rules O M ns rules h.2.2 f' [] [] hlen
+      have hbody := mediaLoop_rules O M hO ns rules h.2.2 f' [] [] hlen
       have hnested : mediaRule O ns (f' + 1) (SRule.media kw g1 mq g2 lead rules).toks =
           some ((SRule.media kw g1 mq g2 lead rules).parsed O ns) := by
         rw [e, mediaRule_eval O ns f' _ _ _ rfl hq hnb hns h.2.1 hinner hinnerE, mediaLoop_ws]
@@ -243,9 +217,22 @@ theorem mediaLoop_rule (O : Oracle) (M : List Cps) (ns : List (Cps × Cps)) :
   | .fontface _ _ _, h, _, _, _, _ => by
     have h : true = false ∧ _ := h
     exact absurd h.1 (by decide)
-  | .page _ _ _ _ _, h, _, _, _, _ => by
-    exact absurd h (by simp [SRule.WF])
-theorem mediaLoop_rules (O : Oracle) (M : List Cps) (ns : List (Cps × Cps)) :
+  | .page kw g0 sel g1 blk, h, f, acc, x, _ => by
+    have h : PageWF O M sel blk := h
+    obtain ⟨b1, b2⟩ := SPageBlock.bal O M sel blk h
+    have e : (SRule.page kw g0 sel g1 blk).toks =
+        atTok .pageSym kw "page" :: (pageHead g0 sel g1 ++ lbraceTok :: (blk.toks ++ [rbraceTok])) := by
+      simp [SRule.toks, pageHead]
+    have hs := stmtShape_block (atTok .pageSym kw "page") (pageHead g0 sel g1) blk.toks
+      (atTok_default_flat _ _ _ (by decide) (by decide) (by decide))
+      (QB.flat (pageHead_flat g0 sel g1 h.selWF .default (Or.inl rfl))) b1 b2
+    have hn : normalize (atTok .pageSym kw "page").val = atPage := normalize_atVal _ kw nameOk_page
+    have d1 : atPage ∉ mediaForbidden := by decide
+    have ht : (atTok .pageSym kw "page").typ = .pageSym := rfl
+    rw [e, mediaLoop_shape O ns _ acc _ _ x hs (by simp [atTok]) (by simp [atTok]), ← e]
+    simp only [mediaStmtEffect, ht, hn, hO.page, mediaInsert]
+    simp [d1, SRule.parsed]
+theorem mediaLoop_rules (O : Oracle) (M : List Cps) (hO : AtFaithful O) (ns : List (Cps × Cps)) :
     ∀ (rs : SRules), rs.WF O M ns true → ∀ (f : Nat) (acc : List Rule) (x : List Tok), rs.toks.length < f →
       parseLoop (mediaStep O ns (fun l => mediaRule O ns f l)) acc (rs.toks ++ x) =
         parseLoop (mediaStep O ns (fun l => mediaRule O ns f l)) (acc ++ rs.parsed O ns) x
@@ -254,13 +241,13 @@ theorem mediaLoop_rules (O : Oracle) (M : List Cps) (ns : List (Cps × Cps)) :
     have h : r.WF O M ns true ∧ rest.WF O M ns true := h
     rw [SRules.toks_cons] at hf ⊢
     simp only [List.length_append] at hf
-    rw [List.append_assoc, mediaLoop_rule O M ns r h.1 f acc _ (by omega), List.append_assoc, mediaLoop_ws,
-      mediaLoop_rules O M ns rest h.2 f _ x (by omega), SRules.parsed_cons]
+    rw [List.append_assoc, mediaLoop_rule O M hO ns r h.1 f acc _ (by omega), List.append_assoc, mediaLoop_ws,
+      mediaLoop_rules O M hO ns rest h.2 f _ x (by omega), SRules.parsed_cons]
     simp
 end
 
 /-- `CSSMediaRule.cssText = tokens` on a rendered `@media` rule, with any amount of fuel above its length -/
-theorem mediaRule_render (O : Oracle) (M : List Cps) (ns : List (Cps × Cps)) (kw : Mask) (g1 : Gap)
+theorem mediaRule_render (O : Oracle) (M : List Cps) (hO : AtFaithful O) (ns : List (Cps × Cps)) (kw : Mask) (g1 : Gap)
     (mq : List Tok) (g2 : Gap) (lead : WGap) (rules : SRules) (im : Bool)
     (h : (SRule.media kw g1 mq g2 lead rules).WF O M ns im) (f : Nat)
     (hf : (SRule.media kw g1 mq g2 lead rules).toks.length < f) :
@@ -282,7 +269,7 @@ theorem mediaRule_render (O : Oracle) (M : List Cps) (ns : List (Cps × Cps)) (k
       rw [e] at hf
       simp only [List.length_cons, List.length_append] at hf
       omega
-    have hbody := mediaLoop_rules O M ns rules h.2.2 f' [] [] hlen
+    have hbody := mediaLoop_rules O M hO ns rules h.2.2 f' [] [] hlen
     rw [e, mediaRule_eval O ns f' _ _ _ rfl hq hnb hns h.2.1 hinner hinnerE, mediaLoop_ws]
     simp only [List.append_nil, List.nil_append] at hbody
     rw [hbody, parseLoop_nil]
@@ -353,7 +340,7 @@ theorem sheetLoop_srule (O : Oracle) (M : List Cps) (hO : AtFaithful O) (r : SRu
     · simp [SRule.parsed]
     · simp
   | media kw g1 mq g2 lead rules =>
-    have hr := mediaRule_render O M st.nsmap kw g1 mq g2 lead rules false h
+    have hr := mediaRule_render O M hO st.nsmap kw g1 mq g2 lead rules false h
       ((SRule.media kw g1 mq g2 lead rules).toks.length + 1) (by omega)
     have h : MqOk mq ∧ O.mediaOk (mediaHead g1 mq g2) = true ∧ rules.WF O M st.nsmap true := h
     obtain ⟨i1, i2⟩ := SRules.bal O M st.nsmap true rules h.2.2
@@ -389,7 +376,23 @@ theorem sheetLoop_srule (O : Oracle) (M : List Cps) (hO : AtFaithful O) (r : SRu
       simp [sheetInsert, Rule.kind, SRule.parsed]
     · simp only [stmtEffect, ht, hO.fontface]
       simp [sheetInsert, Rule.kind]
-  | page _ _ _ _ _ => exact absurd h (by simp [SRule.WF])
+  | page kw g0 sel g1 blk =>
+    have h : PageWF O M sel blk := h
+    obtain ⟨b1, b2⟩ := SPageBlock.bal O M sel blk h
+    have e : (SRule.page kw g0 sel g1 blk).toks =
+        atTok .pageSym kw "page" :: (pageHead g0 sel g1 ++ lbraceTok :: (blk.toks ++ [rbraceTok])) := by
+      simp [SRule.toks, pageHead]
+    have hs := stmtShape_block (atTok .pageSym kw "page") (pageHead g0 sel g1) blk.toks
+      (atTok_default_flat _ _ _ (by decide) (by decide) (by decide))
+      (QB.flat (pageHead_flat g0 sel g1 h.selWF .default (Or.inl rfl))) b1 b2
+    rw [e, sheetLoop_shape O M st _ _ x hs (by simp [atTok]) (by simp [atTok]) (by simp [atTok])
+      (by simp [atTok]), ← e]
+    have ht : (atTok .pageSym kw "page").typ = .pageSym := rfl
+    refine ⟨_, rfl, ?_, ?_⟩
+    · simp only [stmtEffect, ht, hO.page]
+      simp [sheetInsert, Rule.kind, SRule.parsed]
+    · simp only [stmtEffect, ht, hO.page]
+      simp [sheetInsert, Rule.kind]
 
 theorem sheetLoop_srules (O : Oracle) (M : List Cps) (hO : AtFaithful O) :
     ∀ (rs : SRules) (x : List Tok) (st : SheetSt), rs.WF O M st.nsmap false →
@@ -431,7 +434,12 @@ theorem projRule_parsed (O : Oracle) (M : List Cps) (ns : List (Cps × Cps)) (im
     simp only [SRule.parsed, projRule, projAt, SRule.erase, fontFaceRule_render O kw g1 blk h.2, Option.getD_some,
       projItems]
     rw [parseDecls_block O blk h.2]
-  | .page _ _ _ _ _, h => by exact absurd h (by simp [SRule.WF])
+  | .page kw g0 sel g1 blk, h => by
+    have h : PageWF O M sel blk := h
+    obtain ⟨p1, p2⟩ := projPage_render O M sel blk h
+    simp only [SRule.parsed, projRule, projAt, pageRule_render O M kw g0 sel g1 blk h, SRule.erase]
+    rw [p1, p2]
+    rfl
 theorem projRules_parsed (O : Oracle) (M : List Cps) (ns : List (Cps × Cps)) (im : Bool) :
     ∀ (rs : SRules), rs.WF O M ns im → projRules O M (rs.parsed O ns) = rs.erase
   | .nil, _ => by simp [SRules.parsed, projRules, SRules.erase]
